@@ -14,13 +14,15 @@ SP = ["A", "B", "C"]
 
 def gen_model(rng):
     rx = []
+    # one parameter dictionary object handed to several reactions, as a script that defines `params = {"k": ...}` once does
+    shared = {"k": rng.choice(["k0", 0.5, 2.0])} if rng.chance(1, 3) else None
     for j in range(rng.randint(1, 4)):
         c = rng.below(10)
         k = rng.choice(["k%d" % j, rng.choice([0.5, 2.0])])         # named or numeric parameter
         if c < 6:
             reac = [rng.choice(SP) for _ in range(rng.randint(0, 4))]
             prods = [rng.choice(SP) for _ in range(rng.randint(0, 3))]
-            rx.append((reac, prods, "massaction", {"k": k}))
+            rx.append((reac, prods, "massaction", shared if shared is not None else {"k": k}))
         elif c < 8:
             t = rng.choice(HILL)
             pd = {"k": k, "K": rng.choice(["K%d" % j, 3.0]), "n": rng.choice(["n%d" % j, 2.0]), "s1": rng.choice(SP)}
